@@ -23,9 +23,12 @@ FORMAT = ("script [kind; initial_ns; multiplier_bits (u64 pattern of the f64); h
 RULE = ("families = one configuration x a sorted list of attempts: {0..70, 100, 1000, 1023, 1024, 1025, 2^31-1, 2^31, 2^32, 2^63, usize::MAX} and random sorted lists; "
         "initial in {0, 1 ns, 1 ms, 100 ms, 1 s, 1 day, u64::MAX/4 s, random}; multipliers {1, 1+2^-52, 1.1, 1.5, 2, 3.3, 10, random in [1,10]}; "
         "caps none / below the initial / ms .. years / Duration::MAX; factors {0, 0.1, 0.5, 1, random, out-of-range (clamped)}; "
-        "dense sweep of every attempt 0..10^4 (runs of 101 consecutive attempts): two configurations in quick, eight in thorough; a few multipliers far outside [1,10] "
-        "(1e10, 1e300, 1+2^-40); end-to-end loops of 20-300 retries in quick (up to 70000 in thorough: beyond u8/u16 counters), with max_attempts at usize::MAX / u32::MAX / "
-        "small values and through the builders' default backoff; the four upstream reproducers are in the corpus; "
+        "dense sweep of every attempt 0..10^4 (runs of 101 consecutive attempts): two configurations (plus two over 0..399) in quick, nine in thorough; "
+        "attempts strictly between 10^4 and 2^31: log-uniform, with multipliers close to 1 (1+10^-U(1,9), 1+2^-U(7,20), 1+U*0.01) for which the product is still an "
+        "ordinary number of seconds there (60 families in quick, 1200 in thorough, two ladders k*10^4 / k*10^3), and 10 % of the attempts of every random family; "
+        "a few multipliers far outside [1,10] (1e10, 1e300, 1+2^-40); end-to-end loops of 20-300 retries and one of 66000 in quick (70000 for both layers in thorough: "
+        "beyond u8/u16 counters), with max_attempts at usize::MAX / u32::MAX / small values, through the builders' default backoff, and with a first delay of "
+        "Duration::MAX handed to tokio::time::sleep; the four upstream reproducers are in the corpus; "
         "non-trivial = some attempt in the family reaches the cap / saturates / hits the zero branch, or the family is jittered")
 TRUSTED = ["Flocq 4.1.0 binary64 (b64_mult/plus/minus/div, binary_normalize, Bcompare) as the meaning of f64 arithmetic",
            "glue transcribed in Model/Backoff.v from the Rust sources: Duration::as_secs_f64, integer->f64 casts, compiler-builtins __powidf2 "
@@ -108,6 +111,15 @@ def corpus():
         mk(9, MS, 2.0, 20 * MS, 0.0, [40, 10, 5, 0]),
         mk(8, MS, 2.0, 20 * MS, 0.0, [40, 10, 6, 0]),
         mk(8, MS, 2.0, 20 * MS, 0.0, [40, 10, 1, 0]),
+        # the first sleep is as long as a Duration can be (the loops must hand it to tokio::time::sleep, which accepts it;
+        # `sleep_until(Instant::now() + delay)` would overflow): retries = 0, so the run ends after the first poll
+        mk(9, DUR_MAX, 2.0, None, 0.0, [0, 10, 2, 0]),
+        mk(9, 10 ** 29, 2.0, None, 0.0, [0, 10, 5, 0]),
+        mk(8, DUR_MAX, 2.0, DUR_MAX, 0.0, [0, 10]),
+        mk(8, 10 ** 29, 2.0, DUR_MAX, 0.0, [0, 10, 7, 0]),
+        # attempts between 10^4 and 2^31 with a multiplier close to 1: 2866 ns x 1.00011949^100000 = 0.44 s, far below the cap
+        mk(1, 2866, 1.00011949, 93900000000000000, 0.0, [10 ** 4, 50000, 99999, 10 ** 5, 100001, 200000, 10 ** 6]),
+        mk(2, 2866, 1.00011949, None, 0.3, [10 ** 4, 10 ** 5, 10 ** 6]),
         # the builders' own backoff: ReconnectConfig::builder() default policy (100 ms .. 5 s),
         # RetryConfigBuilder::exponential_backoff(initial) and the builder default (100 ms x2, no cap)
         mk(8, 0, 2.0, 0, 0.0, [12, 1000, 0, 1]),
@@ -116,14 +128,32 @@ def corpus():
     ]
 
 
+def near_one(rng):
+    """multipliers for which initial * m^attempt is an ordinary number of seconds at attempts 10^4 .. 10^7
+    (1.0001^100000 = e^10): 1 + 10^-U(1,9), 1 + 2^-U(7,20), 1 + U * 0.01"""
+    r = rng.random()
+    if r < 0.4:
+        return 1.0 + 10.0 ** -rng.uniform(1, 9)
+    if r < 0.8:
+        return 1.0 + 2.0 ** -rng.uniform(7, 20)
+    return 1.0 + rng.random() * 0.01
+
+
+def log_attempt(rng, lo=10 ** 4, hi=2 ** 31):
+    """log-uniform attempt number in [lo, hi)"""
+    return min(hi - 1, max(lo, int(math.exp(rng.uniform(math.log(lo), math.log(hi))))))
+
+
 def rand_mult(rng):
     r = rng.random()
-    if r < 0.5:
+    if r < 0.45:
         return rng.choice(MULTS)
-    if r < 0.8:
+    if r < 0.7:
         return rng.uniform(1.0, 10.0)
-    if r < 0.9:
+    if r < 0.8:
         return 1.0 + rng.randrange(1, 2 ** 20) * 2.0 ** -52
+    if r < 0.92:
+        return near_one(rng)
     return unbits(bits(1.0) + rng.randrange(0, bits(10.0) - bits(1.0) + 1))
 
 
@@ -151,11 +181,13 @@ def rand_attempts(rng, n):
     out = set()
     while len(out) < n:
         r = rng.random()
-        if r < 0.6:
+        if r < 0.55:
             out.add(rng.randrange(0, 200))
-        elif r < 0.8:
+        elif r < 0.73:
             out.add(rng.randrange(0, 10001))
-        elif r < 0.9:
+        elif r < 0.83:
+            out.add(log_attempt(rng))                     # strictly between 10^4 and 2^31
+        elif r < 0.92:
             out.add(rng.choice([1023, 1024, 1025, 2 ** 31 - 2, 2 ** 31 - 1, 2 ** 31, 2 ** 32 - 1, 2 ** 32, 2 ** 63, USIZE_MAX - 1, USIZE_MAX]))
         else:
             out.add(rng.randrange(0, 2 ** 64))
@@ -204,6 +236,25 @@ def generate(rng, tier):
         att = rand_attempts(rng, 6)
         ini = rand_initial(rng)
         out.append(mk(rng.choice([0, 5, 6, 7]), min(ini, DUR_MAX - 1000), 2.0, None, 0.0, att))
+    # attempts strictly between 10^4 and 2^31 with multipliers close to 1: the band in which the product is an
+    # ordinary number of seconds long after the dense sweep ends ("grown but not yet capped")
+    for _ in range(60 if quick else 1200):
+        m = near_one(rng)
+        # an attempt range in which initial * m^a moves from about the initial to about 10^12 x initial
+        top = min(2 ** 31, max(2 * 10 ** 4, int(27.6 / math.log(m)))) if m > 1.0 else 2 ** 31
+        att = sorted({log_attempt(rng, 10 ** 4, top) for _ in range(20)} | {10 ** 4, top - 1, top, 2 * top} |
+                     {rng.choice([20000, 65535, 65536, 10 ** 5, 10 ** 6, 10 ** 7]) for _ in range(2)})
+        ini = int(10 ** rng.uniform(0, 9)) if rng.random() < 0.8 else rand_initial(rng)
+        cap = rng.choice([None, None, DUR_MAX, 30 * YEAR, 3600 * NANOS, min(DUR_MAX, int(ini * 10 ** rng.uniform(0, 14)))])
+        kind = rng.choice([1, 1, 1, 2])
+        out.append(mk(kind, ini, m, cap, rand_factor(rng), att))
+    # two fixed ladders: m = 1 + 2^-20 at every 10^4-th attempt up to 10^7, m = 1.0001 at every 10^3-th up to 10^6
+    if not quick:
+        out.append(mk(1, 1000, 1.0 + 2.0 ** -20, None, 0.0, [k * 10 ** 4 for k in range(0, 1001)]))
+        out.append(mk(1, 2866, 1.0001, 3 * YEAR, 0.0, [k * 10 ** 3 for k in range(0, 1001)]))
+    else:
+        out.append(mk(1, 1000, 1.0 + 2.0 ** -20, None, 0.0, [k * 10 ** 5 for k in range(0, 101)]))
+        out.append(mk(1, 2866, 1.0001, 3 * YEAR, 0.0, [k * 10 ** 4 for k in range(0, 101)]))
     # multipliers that are well-formed (finite, >= 1) but far outside [1, 10]: overflow to +inf after a
     # few attempts (1e300: at attempt 2), or barely above 1
     for m in (1e10, 1e300, 1.0 + 2.0 ** -40):
@@ -229,7 +280,11 @@ def generate(rng, tier):
            (8, 2 * MS, 2.0, 50 * MS, 60, 10, 2 ** 32, 0), (8, 2 * MS, 2.0, 50 * MS, 60, 10, rng.randrange(1, 40), 0),
            (9, 2 * MS, 2.0, 50 * MS, 60, 10, rng.randrange(1, 40), 0),
            (8, 0, 2.0, 0, rng.randrange(5, 15), 500, 0, 1), (9, rng.randrange(1, 20) * MS, 2.0, None, 12, 20, 0, 1),
-           (9, 0, 2.0, None, rng.randrange(5, 11), 100, 0, 2)]
+           (9, 0, 2.0, None, rng.randrange(5, 11), 100, 0, 2),
+           (9, DUR_MAX - rng.randrange(0, 10 ** 20), 2.0, None, 0, 10, 3, 0), (8, DUR_MAX - rng.randrange(0, 10 ** 20), 2.0, DUR_MAX, 0, 10, 0, 0)]
+    # more retries than a u16 holds (reconnect; the retry loop's turn is in thorough): cap = 3 clock steps, so that a
+    # restarted schedule shows as a drop of more than one step
+    e2e.append((8, MS, 2.0, 24 * MS, 66000, 8, 0, 0))
     if not quick:
         e2e += [(8, 100 * MS, 2.0, 5 * NANOS, 200, 1000, 0, 0), (9, 100 * MS, 2.0, 60 * NANOS, 100, 1000, 0, 0),
                 (8, MS, 2.0, 86400 * NANOS, 45, 600000, 0, 0),
@@ -302,7 +357,8 @@ def monitor(s, t):
         if len(t) < 2 or t[0] != 0:
             return "retry/reconnect loop panicked or produced no trace: %s" % t[:4]
         # the loop keeps going until the configured number of attempts is used up (or for ever)
-        limit = (k + 1 if mx == 0 else mx) if kind == 9 else (None if mx == 0 or mx - 1 >= 2 ** 32 - 1 else mx)
+        # (reconnect, /repo 4ccf9b3: max_attempts(u32::MAX) is a bound too: 2^32 calls)
+        limit = (k + 1 if mx == 0 else mx) if kind == 9 else (None if mx == 0 else mx)
         calls = k + 1 if limit is None else min(k + 1, max(1, limit))
         if t[1] != calls or len(t) != 1 + calls:
             return "loop against a dead backend made %d calls, expected %d" % (t[1], calls)
@@ -403,6 +459,8 @@ def classify(s, t):
                    else "mult<=10" if m <= 10 else "mult other")
         out.append("cap none" if p["cap"] is None else "cap<initial" if p["cap"] < ini else "cap=max" if p["cap"] == DUR_MAX else "cap finite")
         mx = max(p["att"]) if p["att"] else 0
+        if any(10 ** 4 < a < 2 ** 31 - 2 for a in p["att"]):
+            out.append("some attempt in (10^4, 2^31-2)")
         out.append("attempts<=70" if mx <= 70 else "attempts<=10^4" if mx <= 10 ** 4 else "attempts<2^31" if mx < 2 ** 31 else "attempts>=2^31")
         w = width(p["kind"])
         cap = p["cap"] if p["cap"] is not None else DUR_MAX
